@@ -7,6 +7,7 @@ use std::str::FromStr;
 pub enum DisplayAmbiguityType {
     ExtraFile,
     ExtraRank,
+    ExtraSquare,
     Neither,
 }
 
@@ -231,6 +232,9 @@ impl BoardMove {
                     }
                     DisplayAmbiguityType::ExtraRank => {
                         format!("{}", m.get_source_square().get_rank())
+                    }
+                    DisplayAmbiguityType::ExtraSquare => {
+                        format!("{}", m.get_source_square())
                     }
                     DisplayAmbiguityType::Neither => String::new(),
                 };
